@@ -192,23 +192,44 @@ func runC07(r *Run, verifDir string) {
 				continue
 			}
 			bo, ok := iff.Cond.(*ssa.BinOp)
-			if !ok || bo.Op != token.GTR {
+			if !ok {
 				continue
 			}
 			isMax := func(v ssa.Value) bool {
-				u, ok := v.(*ssa.UnOp)
+				u, ok := unspill(v).(*ssa.UnOp)
 				if !ok {
 					return false
 				}
 				_, fld, ok := fieldAddrOf(u.X)
 				return ok && fname(fld) == "max"
 			}
-			if bo.X == ssa.Value(cnbCall) && isMax(bo.Y) {
-				cut[edge{b, b.Succs[1]}] = true // need <= max
-				nLimit++
+			// normalise to `a OP b` with a = need or max
+			x, y, op := unspill(bo.X), unspill(bo.Y), bo.Op
+			mirror := map[token.Token]token.Token{token.LSS: token.GTR, token.LEQ: token.GEQ, token.GTR: token.LSS, token.GEQ: token.LEQ, token.EQL: token.EQL, token.NEQ: token.NEQ}
+			if (isMax(x) && y == ssa.Value(cnbCall)) || func() bool { _, isK := constIntVal(x); return isK && isMax(y) }() {
+				x, y, op = y, x, mirror[op]
 			}
-			if k, ok := constIntVal(bo.Y); ok && k == 0 && isMax(bo.X) {
-				cut[edge{b, b.Succs[1]}] = true // no limit configured
+			switch {
+			case x == ssa.Value(cnbCall) && isMax(y):
+				// need OP max: the edge on which need <= max holds
+				switch op {
+				case token.GTR, token.GEQ:
+					cut[edge{b, b.Succs[1]}] = true
+					nLimit++
+				case token.LEQ, token.LSS:
+					cut[edge{b, b.Succs[0]}] = true
+					nLimit++
+				}
+			case isMax(x):
+				// max OP k: the edge on which no limit is configured (max <= 0)
+				if k, ok := constIntVal(y); ok {
+					switch {
+					case op == token.GTR && k == 0, op == token.GEQ && k == 1, op == token.NEQ && k == 0:
+						cut[edge{b, b.Succs[1]}] = true
+					case op == token.LEQ && k == 0, op == token.LSS && k == 1, op == token.EQL && k == 0:
+						cut[edge{b, b.Succs[0]}] = true
+					}
+				}
 			}
 		}
 		seen := map[*ssa.BasicBlock]bool{}
